@@ -164,6 +164,11 @@ pub fn exec(tok: &[&str]) -> String {
             let (x, y) = vh::cplx_split_fft(&vh::cplx_fft(&cparse(tok[1])));
             format!("{} {}", cfmt(&x), cfmt(&y))
         }
+        // ---- interoperability with PQClean (C16) -----------------------------------------------------
+        "interop_ours" => crate::c16::op_ours(tok[1].parse().unwrap(), &unhex(tok[2]), &unhex(tok[3]), tok[4].parse().unwrap()),
+        "interop_ref" => crate::c16::op_ref(tok[1].parse().unwrap(), &unhex(tok[2])),
+        "interop_export" => crate::c16::op_export(tok[1].parse().unwrap(), &unhex(tok[2]), &unhex(tok[3])),
+        "interop_import" => crate::c16::op_import(tok[1].parse().unwrap(), &unhex(tok[2])),
         // ---- hash to point (C14) -------------------------------------------------------------------
         "hash_to_point" => ints(&vh::hash_to_point(&unhex(tok[2]), tok[1].parse().unwrap())),
         _ => panic!("bad-op {}", tok[0]),
